@@ -37,7 +37,8 @@ def entries():
 def gen_template(rng, e):
     g = catalog.Choices(rng=rng, seed_value=0, callback=(lambda *a, **k: None) if e["cb"] else None)
     e["build"](g)
-    return {"entry": e["name"], "choices": list(g.rec), "tenalg": "einsum" if rng.random() < 0.3 else "core"}
+    return {"entry": e["name"], "choices": list(g.rec), "tenalg": "einsum" if rng.random() < 0.3 else "core",
+            "dtype": "float32" if rng.random() < 0.15 else "float64"}
 
 
 def gen_record(rng, r):
@@ -163,7 +164,7 @@ class Run:
             seed_obj = np.random.RandomState(int(op["s"]))
         else:
             seed_obj = None
-        g = catalog.Choices(replay=tm["choices"], seed_value=seed_obj, callback=self.callback if e["cb"] else None)
+        g = catalog.Choices(replay=tm["choices"], seed_value=seed_obj, callback=self.callback if e["cb"] else None, dtype=tm.get("dtype"))
         call = e["build"](g)
         tags = fp_tags(call["kwargs"], g.notes)
         st = t.local
@@ -484,7 +485,7 @@ def make_replay(rec, fp, seed, run_idx):
     args = {}
     for ti, tm in enumerate(rec["templates"]):
         e = catalog.ENTRIES[tm["entry"]]
-        g = catalog.Choices(replay=tm["choices"], seed_value="<seed>", callback=(lambda *a, **k: None) if e["cb"] else None)
+        g = catalog.Choices(replay=tm["choices"], seed_value="<seed>", callback=(lambda *a, **k: None) if e["cb"] else None, dtype=tm.get("dtype"))
         call = e["build"](g)
         fl = {}
         for k in sorted(call["kwargs"]):
